@@ -52,6 +52,11 @@ CLAIMED.update({
         text="Packet + Message + the per-code parser run on symbolic payloads (whole short payloads for every verb/code with symbolic device types, every 2-byte window of logged payloads, arrays with all or one element symbolic); whenever a path decodes, the solver shows for every input of the path: plain-JSON types only, a second decode after unrelated decodes is cell-for-cell equal, reported zone/domain/dhw/ufh indexes equal the frame characters at the index position, array entry i equals element i decoded as its own frame, ratios in [0,1], temperatures inside the wire range.",
         note=_DEC_NOTE + " Indexes the code derives from a zone type/role (0005, 000C, 0404, 0418, 3220, 1FC9) are outside the index clause.", design="4/C05"),
 })
+CLAIMED.update({
+    "C06": dict(
+        text="The real matching code (IsInIdle.cmd_sent with the gateway-id substitution, WantEcho.pkt_rcvd, WantRply.pkt_rcvd over pkt_header/_ctx/_idx/_pkt_idx and Command.tx_header/rx_header) runs on requests taken from the logs and built by 25 public constructors, with the context characters/arguments and the gateway's six id digits symbolic; per path the solver shows the substituted echo leaves the echo wait, the reply of an independently modelled conforming device (same context positions, other payload characters symbolic) is returned as the result, and packets differing in exactly one of code/verb/device/context are taken for neither.",
+        note="Trusted: z3, symx, the recording stand-in for ProtocolContext, the independent context-position table. Bounds: one (thorough: 3) logged request per (verb, code, length); 8 (16) further reply characters symbolic; 1FC9 is under C20.", design="4/C06"),
+})
 NOT_APPLICABLE = {
     "C12": "whole-gateway discovery against a scripted controller over simulated hours: the quantified space is a discrete configuration/loss pattern and the entity layer (voluptuous schemas, pollers, entity graph) is outside the symbolically executable subset; decode kernels it rests on are covered under C05",
     "C15": "schema validity/consistency over packet histories: validators are voluptuous (third-party, callable/regex based, not instrumented) and the rules live in the entity graph; no symbolic dimension is encodable within reach",
